@@ -18,6 +18,12 @@ Ties the theorems of `Props/C13Mps.lean` to emu_mps/mps.py (`MPS.expect_batch`, 
 * `fill_results` stream (1e-10): `1/norm * state`, `extended_mps_factors`, recorded centre mapped by
   `get_extended_site_index`: reported occupations / correlations of the padded normalised state against the model's
   dense sums on the *reduced unnormalised* factors divided by `norm²` (`scaled_*`, `padded_*` theorems): dark atoms 0.
+* the REAL `fill_results` (`oracle_fill_results`): `create_impl` on hand-built SequenceData in {Lindblad noise, none} x
+  {dark atoms, none} (+ 3 levels, + `max_bond_dim=1` / `precision=0.2`), a spy observable records the state and the
+  Hamiltonian handed to the callbacks; (a) `impl.state` replaced by an MPS of norm 0.3..3, (b) 2-4 step runs with
+  `random.uniform` patched to 0 (no jump: the norm decays) or lossy truncation. Checked: the state handed over has
+  `<psi|psi> = 1`, is the padded back-end state, and every reported observable equals its definition on the normalised
+  state (1e-8) — what `normalised_of_inverse_norm` / `scaled_observable` require.
 """
 from __future__ import annotations
 
@@ -565,6 +571,218 @@ def fill_results_stream(rep: Report, rng, tier: str, S: Stream) -> None:
     S.post.append(lambda: rep.extra.__setitem__("mps_fill_max_err", state["worst"]))
 
 
+# ----------------------------------------------------------------------------- the REAL fill_results
+THEOREMS = ("Props.C13Mps.normalised_of_inverse_norm / scaled_observable: fill_results must hand `(1/norm)·state` to the "
+            "callbacks — observables of λψ are |λ|²× those of ψ, so an unnormalised state of norm c reports c²× the definition")
+TOL_FILL = 1e-8
+_SPY = {}
+
+
+def spy_class():
+    """an Observable that records what `fill_results` hands to the callbacks (dense state and dense Hamiltonian)"""
+    if "cls" in _SPY:
+        return _SPY["cls"]
+    np, torch, tu, MPS = _imports()
+    from pulser.backend.observable import Observable
+
+    class HandedState(Observable):
+        @property
+        def _base_tag(self):
+            return "verif_handed_state"
+
+        def apply(self, *, config, state, hamiltonian=None, **kw):
+            return dict(psi=tu.dense_state([f.clone() for f in state.factors]).numpy(),
+                        H=tu.dense_op([f.clone() for f in hamiltonian.factors]).numpy(),
+                        centre=state.orthogonality_center)
+    _SPY["cls"] = HandedState
+    return HandedState
+
+
+def fill_impl(P):
+    """hand-built MPSBackendImpl / NoisyMPSBackendImpl for the parameters P (see fill_params)"""
+    np, torch, tu, MPS = _imports()
+    from harness import compat
+    import pulser.backend as pb
+    from emu_mps.mps_backend_impl import create_impl
+    n, d, steps = P["n"], P["d"], P["steps"]
+    ev = [k / steps for k in range(steps + 1)]
+    ops = []
+    if P["noise"]:
+        L = torch.zeros(d, d, dtype=tu.DT)
+        L[0, 1] = P["gamma"] ** 0.5                      # relaxation r -> g: the no-jump evolution loses norm
+        ops.append(L)
+        if d == 3:
+            L2 = torch.zeros(d, d, dtype=tu.DT)
+            L2[2, 1] = (P["gamma"] / 2) ** 0.5             # leakage r -> x
+            ops.append(L2)
+    bad = [not m for m in P["mask"]]
+    data = compat.make_sequence_data(P["om"], P["de"], P["ph"], P["U"], [P["dt"] * k for k in range(steps + 1)],
+                                     bad_atoms=bad, state_prep_error=0.1 if any(bad) else 0.0, lindblad_ops=ops,
+                                     eigenstates=EIG[d] if d == 3 else ("r", "g"))
+    spy = spy_class()(evaluation_times=ev)
+    obs = [spy, pb.Occupation(evaluation_times=ev), pb.CorrelationMatrix(evaluation_times=ev), pb.Energy(evaluation_times=ev),
+           pb.EnergySecondMoment(evaluation_times=ev), pb.EnergyVariance(evaluation_times=ev)]
+    if P.get("order") == "corr-first":
+        obs = [obs[0], obs[2], obs[1]] + obs[3:]
+    kw = dict(observables=obs, dt=int(P["dt"]), precision=P["precision"], optimize_qubit_ordering=False)
+    if P.get("max_bond_dim"):
+        kw["max_bond_dim"] = P["max_bond_dim"]
+    cfg = compat.mps_config(**kw)
+    return create_impl(data, cfg), ev
+
+
+def fill_reference(np, d, n, psi, H):
+    """dense definitions on the NORMALISED state"""
+    nrm2 = float(np.vdot(psi, psi).real)
+    v = psi / np.sqrt(nrm2)
+    p = (np.abs(v) ** 2).reshape((d,) * n)
+    occ = np.array([p.take(1, axis=i).sum() for i in range(n)])
+    cor = np.array([[occ[i] if i == j else p.take(1, axis=max(i, j)).take(1, axis=min(i, j)).sum() for j in range(n)] for i in range(n)])
+    Hv = H @ v
+    e, e2 = float(np.vdot(v, Hv).real), float(np.vdot(Hv, Hv).real)
+    return nrm2, dict(occupation=occ, correlation_matrix=cor, energy=e, energy_second_moment=e2, energy_variance=e2 - e * e)
+
+
+def fill_case(P):
+    """drive the real fill_results; returns a list of (what, error) deviations above tolerance"""
+    np, torch, tu, MPS = _imports()
+    import random as pyrandom
+    n, d, mask = P["n"], P["d"], P["mask"]
+    impl, ev = fill_impl(P)
+    pyrandom.seed(P["seed"])
+    torch.manual_seed(P["seed"])
+    out = []
+    with mock.patch("random.uniform", lambda a, b: 0.0):       # jump threshold 0: the Monte-Carlo wave function never jumps
+        impl.init()
+        if P["mode"] == "inject":
+            bonds = P["bonds"]
+            fs = [torch.tensor([complex(*z) for z in f], dtype=tu.DT).reshape(bonds[i], d, bonds[i + 1]) for i, f in enumerate(P["factors"])]
+            st = MPS([f.clone() for f in fs], precision=impl.config.precision, max_bond_dim=impl.config.max_bond_dim,
+                     num_gpus_to_use=0, eigenstates=impl.state.eigenstates, orthogonality_center=None)
+            if P.get("centre") is not None:
+                st.orthogonalize(P["centre"])
+            impl.state = st
+            impl.current_time = impl.target_times[-1]
+            if P["noise"]:
+                impl.update_H_no_noise()                 # what NoisyMPSBackendImpl.timestep_complete does before fill_results
+            impl.fill_results()
+            times = [1.0]
+            inj = tu.dense_state(fs).numpy()
+            inj = inj / np.linalg.norm(inj)
+            full = np.zeros((d,) * n, dtype=complex)
+            full[tuple(slice(None) if m else 0 for m in mask)] = inj.reshape((d,) * sum(mask))
+            inj_full = full.reshape(-1)
+        else:
+            while not impl.is_finished():
+                impl.progress()
+            times = ev
+    res = impl.results
+    P["_raw_norm"] = float(impl.state.norm())            # norm of the evolving state of the back-end (not handed to callbacks)
+    for t in times:
+        rec = res.get_result("verif_handed_state", t)
+        nrm2, ref = fill_reference(np, d, n, rec["psi"], rec["H"])
+        if abs(nrm2 - 1.0) > TOL_FILL:
+            out.append((f"the state handed to the callbacks at t={t:g} has <psi|psi> = {nrm2:.6f}, not 1", abs(nrm2 - 1.0)))
+        if P["mode"] == "inject":
+            ov = abs(np.vdot(inj_full, rec["psi"] / np.sqrt(nrm2)))
+            if abs(ov - 1.0) > TOL_FILL:
+                out.append((f"the state handed to the callbacks is not the (padded) state of the back-end: |overlap| = {ov:.6f}", abs(ov - 1.0)))
+        sc = 1.0 + abs(ref["energy_second_moment"])
+        for name, want in ref.items():
+            got = np.asarray(torch.as_tensor(res.get_result(name, t)).tolist(), dtype=complex).real
+            s_ = sc if name.startswith("energy") else 1.0
+            err = float(np.abs(got - np.asarray(want)).max()) / s_
+            if not err <= TOL_FILL:
+                out.append((f"{name} at t={t:g} differs from its definition on the normalised state by {err:.3e} "
+                            f"(<psi|psi> of the state handed over = {nrm2:.6f})", err))
+    return out
+
+
+def fill_params(rng, torch, tu, mode, noise, dark, d, lossy=False):
+    n = rng.randint(3, 4) if mode == "run" else rng.randint(2, 5)
+    mask = [True] * n
+    if dark:
+        for q in rng.sample(range(n), rng.randint(1, n - 2) if n > 2 else 0):
+            mask[q] = False
+        if all(mask):                                   # n = 2 cannot lose an atom (MPS.make needs two sites): add one
+            n += 1
+            mask = [True, False, True]
+    nw = sum(mask)
+    steps = rng.randint(2, 4)
+    om = [[rng.uniform(4, 12) for _ in range(n)] for _ in range(steps)]
+    de = [[rng.uniform(-8, 8) for _ in range(n)] for _ in range(steps)]
+    ph = [[rng.choice([0.0, rng.uniform(-3, 3)]) for _ in range(n)] for _ in range(steps)]
+    U = [[0.0] * n for _ in range(n)]
+    for a in range(n):
+        for b in range(a + 1, n):
+            U[a][b] = U[b][a] = rng.uniform(0, 12)
+    P = dict(kind="mps-fill-real", mode=mode, n=n, d=d, mask=mask, noise=noise, gamma=rng.uniform(4.0, 12.0), steps=steps, dt=100.0,
+             om=om, de=de, ph=ph, U=U, precision=1e-10, max_bond_dim=None, seed=rng.randrange(10 ** 6),
+             order=rng.choice(["occ-first", "corr-first"]))
+    if lossy:                                           # truncation that loses weight: capped bond dimension or coarse precision
+        if rng.random() < 0.5:
+            P["max_bond_dim"] = 1
+        else:
+            P["precision"] = 0.2
+    if mode == "inject":
+        bonds = [1] + [rng.randint(1, 3) for _ in range(nw - 1)] + [1]
+        gen = torch.Generator().manual_seed(P["seed"])
+        fs = tu.rand_float_chain(gen, nw, (d,), bonds)
+        target = rng.uniform(0.3, 3.0)                  # deliberately unnormalised
+        nrm = float(torch.linalg.vector_norm(tu.dense_state(fs)))
+        fs[rng.randrange(nw)] *= target / nrm
+        P.update(bonds=bonds, factors=_ser(fs), centre=rng.choice([None] + list(range(nw))), target_norm=target)
+    return P
+
+
+def oracle_fill_results(rep: Report, rng, tier: str) -> None:
+    """the real `MPSBackendImpl.fill_results` / `NoisyMPSBackendImpl` in {noise, none} x {dark atoms, none} (+ 3 levels, + lossy
+    truncation): injected states of norm 0.3..3 and short runs whose norm decays (no jump) or is truncated away"""
+    np, torch, tu, MPS = _imports()
+    quick = tier == "quick"
+    plan = []
+    for noise in (False, True):
+        for dark in (False, True):
+            plan.append(("inject", noise, dark, 2, False))
+            plan.append(("inject", noise, dark, 3 if noise else 2, False))
+            plan.append(("run", noise, dark, 2, not noise))      # noiseless runs lose norm through truncation only
+    plan.append(("run", True, True, 3, False))
+    plan.append(("run", False, False, 2, True))
+    worst = 0.0
+    for rnd in range(3 if quick else 24):
+        for mode, noise, dark, d, lossy in plan:
+            P = fill_params(rng, torch, tu, mode, noise, dark, d, lossy)
+            rep.case(key=("fill-real", rnd, mode, noise, dark, d, lossy), nontrivial=True, trace=False)
+            rep.hist("mps_fill_real", f"{mode}/{'noise' if noise else 'noiseless'}/{'dark' if dark else 'all-good'}/d={d}{'/lossy' if lossy else ''}")
+            try:
+                dev = fill_case(P)
+            except Exception as e:
+                rep.fail(f"emu-mps fill_results ({mode}, noise={noise}, dark atoms={dark}, d={d}) raised {type(e).__name__}: {e}", P, klass=None)
+                continue
+            rep.hist("mps_fill_real_backend_norm", "lost weight (<0.999)" if P["_raw_norm"] < 0.999 else
+                     ("unnormalised (>1.001)" if P["_raw_norm"] > 1.001 else "~1"))
+            P.pop("_raw_norm", None)
+            for what, err in dev[:3]:
+                worst = max(worst, err)
+                rep.fail(f"emu-mps fill_results [{mode}; {'Lindblad noise' if noise else 'no noise'}; mask {P['mask']}; d={d}"
+                         f"{'; max_bond_dim=' + str(P['max_bond_dim']) if P['max_bond_dim'] else ''}"
+                         f"{'; precision=' + str(P['precision']) if P['precision'] > 1e-9 else ''}]: {what}. Violates {THEOREMS}", P)
+    rep.extra["mps_fill_real_cases"] = rep.extra.get("mps_fill_real_cases", 0) + len(plan) * (3 if quick else 24)
+    rep.extra["mps_fill_real_max_dev"] = worst
+
+
+def replay_fill(d) -> int:
+    try:
+        dev = fill_case(d)
+    except Exception as e:      # the real code raising on this input is the failure that was recorded
+        print(f"replay: real fill_results ({d['mode']}, noise={d['noise']}, mask={d['mask']}, d={d['d']}): raised {type(e).__name__}: {e} FAILS")
+        return 1
+    w = max(dev, key=lambda x: x[1]) if dev else None
+    print(f"replay: real fill_results ({d['mode']}, noise={d['noise']}, mask={d['mask']}, d={d['d']}):",
+          (w[0] + " FAILS") if w else "every observable equals its definition on the normalised state: holds now")
+    return 1 if dev else 0
+
+
 def run(rep: Report, tier: str, seed: int, drv: Driver | None = None) -> None:
     from harness.common import seeded
     drv = drv or Driver()
@@ -572,6 +790,7 @@ def run(rep: Report, tier: str, seed: int, drv: Driver | None = None) -> None:
     exact_stream(rep, seeded(seed * 6007 + 131), tier, S)
     tape_stream(rep, seeded(seed * 7019 + 131), tier, S)
     fill_results_stream(rep, seeded(seed * 8011 + 131), tier, S)
+    oracle_fill_results(rep, seeded(seed * 9001 + 131), tier)
     S.run(drv)
     for h in S.post:
         h()
